@@ -159,6 +159,9 @@ func NilWalkAfter(fn *ssa.Function, after ssa.Instruction, cut map[Edge]bool, st
 	return nilWalk(fn, nil, after, cut, stopAt, onInstr)
 }
 
+// MaxWalkStates bounds one path-sensitive walk; exceeding it is reported as Overflow (undecided).
+var MaxWalkStates = 200000
+
 func nilWalk(fn *ssa.Function, from map[Edge]bool, after ssa.Instruction, cut map[Edge]bool, stopAt func(ssa.Instruction) bool, onInstr func(ssa.Instruction, NilFacts)) NilWalkResult {
 	res := NilWalkResult{Blocks: map[*ssa.BasicBlock]bool{}}
 	type item struct {
@@ -194,6 +197,7 @@ func nilWalk(fn *ssa.Function, from map[Edge]bool, after ssa.Instruction, cut ma
 		return a, t
 	}
 	seen := map[string]bool{}
+	ids := map[ssa.Value]uint32{}
 	var work []item
 	if after != nil {
 		b := after.Block()
@@ -218,7 +222,7 @@ func nilWalk(fn *ssa.Function, from map[Edge]bool, after ssa.Instruction, cut ma
 			work = append(work, item{e.From.Succs[e.Idx], e.From, f, 0, map[ssa.Value]ssa.Value{}})
 		}
 	}
-	const maxStates = 200000
+	maxStates := MaxWalkStates
 	for len(work) > 0 {
 		it := work[len(work)-1]
 		work = work[:len(work)-1]
@@ -260,18 +264,7 @@ func nilWalk(fn *ssa.Function, from map[Edge]bool, after ssa.Instruction, cut ma
 				}
 			}
 		}
-		key := it.b.String() + "|" + f.key()
-		if len(lastStored) > 0 {
-			ls := make([]string, 0, len(lastStored))
-			for a, v := range lastStored {
-				ls = append(ls, a.Name()+"<-"+v.Name())
-			}
-			sort.Strings(ls)
-			key += "|" + strings.Join(ls, ",")
-		}
-		if it.start > 0 {
-			key += "|@"
-		}
+		key := stateKey(ids, it.b.Index, f, lastStored, it.start > 0)
 		if seen[key] {
 			continue
 		}
@@ -411,4 +404,39 @@ func GuardedByNil(fn *ssa.Function, sink ssa.Instruction, guards ...Guard) (bool
 		return false, counts
 	}
 	return !res.Blocks[sink.Block()], counts
+}
+
+// stateKey encodes (block, facts, last-stored cells) compactly; values are numbered per walk.
+func stateKey(ids map[ssa.Value]uint32, block int, f NilFacts, last map[ssa.Value]ssa.Value, mid bool) string {
+	id := func(v ssa.Value) uint32 {
+		n, ok := ids[v]
+		if !ok {
+			n = uint32(len(ids) + 1)
+			ids[v] = n
+		}
+		return n
+	}
+	nums := make([]uint64, 0, len(f)+len(last))
+	for k, v := range f {
+		x := uint64(id(k)) << 1
+		if v {
+			x |= 1
+		}
+		nums = append(nums, x)
+	}
+	for a, v := range last {
+		nums = append(nums, 1<<63|uint64(id(a))<<31|uint64(id(v)))
+	}
+	sort.Slice(nums, func(i, j int) bool { return nums[i] < nums[j] })
+	buf := make([]byte, 0, 8+8*len(nums))
+	buf = append(buf, byte(block), byte(block>>8), byte(block>>16))
+	if mid {
+		buf = append(buf, 1)
+	} else {
+		buf = append(buf, 0)
+	}
+	for _, x := range nums {
+		buf = append(buf, byte(x), byte(x>>8), byte(x>>16), byte(x>>24), byte(x>>32), byte(x>>40), byte(x>>48), byte(x>>56))
+	}
+	return string(buf)
 }
